@@ -197,6 +197,58 @@ func (rr *c09Run) metadata(pfx, pat string, r1 *regexp.Regexp, r2 *coregex.Regex
 	}
 }
 
+// unmarshalIntoUsed: UnmarshalText into a receiver that already holds another expression in
+// another mode (POSIX / Longest) must yield a value indistinguishable from Compile(pat)
+// (regexp: `*re = *newRE`).  Compared with coregex's own fresh Compile(pat), so that other
+// findings do not leak into this relation.
+func (rr *c09Run) unmarshalIntoUsed(r *rng, pat string, fresh *coregex.Regex) {
+	mk := []struct {
+		name string
+		f    func() *coregex.Regex
+	}{
+		{"posix", func() *coregex.Regex { x, _ := coregex.CompilePOSIX("a|ab"); return x }},
+		{"longest", func() *coregex.Regex { x, _ := coregex.Compile("a|ab"); x.Longest(); x.MatchString("ab"); return x }},
+		{"plain-used", func() *coregex.Regex { x, _ := coregex.Compile("(x+)y"); x.FindStringSubmatch("xxy"); return x }},
+	}
+	hays := c09Hays(r, pat)
+	hays = append(hays, []byte("ab"), []byte("xaby"))
+	for _, m := range mk {
+		recv := m.f()
+		if recv == nil {
+			continue
+		}
+		var err error
+		if p, msg := c09Try(func() { err = recv.UnmarshalText([]byte(pat)) }); p || err != nil {
+			rr.viol("UnmarshalText-into-"+m.name, pat, "<nil>", fmt.Sprintf("panic=%v %s err=%v", p, msg, err), nil)
+			continue
+		}
+		rr.st.Evaluations++
+		cmp := func(what, a, b string) {
+			if a != b {
+				rr.viol("UnmarshalText-into-"+m.name+":"+what, pat, a, b, nil)
+			}
+		}
+		cmp("String", fresh.String(), recv.String())
+		cmp("NumSubexp", fmt.Sprint(fresh.NumSubexp()), fmt.Sprint(recv.NumSubexp()))
+		a, ac := fresh.LiteralPrefix()
+		b, bc := recv.LiteralPrefix()
+		cmp("LiteralPrefix", fmt.Sprintf("(%q,%v)", a, ac), fmt.Sprintf("(%q,%v)", b, bc))
+		var cp *coregex.Regex
+		if p, _ := c09Try(func() { cp = recv.Copy() }); p || cp == nil {
+			rr.viol("UnmarshalText-into-"+m.name+":Copy", pat, "non-nil copy", "nil or panic", nil)
+		}
+		fc := fresh.Copy()
+		for _, h := range hays {
+			cmp("FindIndex", fmtInts(fresh.FindIndex(h)), fmtInts(recv.FindIndex(h)))
+			cmp("FindSubmatchIndex", fmtInts(fresh.FindSubmatchIndex(h)), fmtInts(recv.FindSubmatchIndex(h)))
+			if cp != nil && fc != nil {
+				cmp("Copy.FindIndex", fmtInts(fc.FindIndex(h)), fmtInts(cp.FindIndex(h)))
+				cmp("Copy.FindAllIndex", fmtIntss(fc.FindAllIndex(h, -1)), fmtIntss(cp.FindAllIndex(h, -1)))
+			}
+		}
+	}
+}
+
 func c09Hays(r *rng, pat string) [][]byte {
 	re, err := syntax.Parse(pat, syntax.Perl)
 	if err != nil {
@@ -217,6 +269,7 @@ func c09Hays(r *rng, pat string) [][]byte {
 
 // roundtrips: MarshalText/UnmarshalText and Copy/Longest on an accepted pattern.
 func (rr *c09Run) roundtrips(r *rng, pat string, r1 *regexp.Regexp, r2 *coregex.Regex) {
+	rr.unmarshalIntoUsed(r, pat, r2)
 	hays := c09Hays(r, pat)
 	before := make([]string, len(hays))
 	for i, h := range hays {
